@@ -167,6 +167,28 @@ def check(chk):
         chk.judge(ok, 'C20.newconn', f, '%s: keyspace selected before the connection is published (when the pool has one)' % q,
                   'a new connection can be handed out before the pool\'s keyspace was selected on it')
 
+    # ---- legacy pool: set_keyspace_async may call back inline (nothing to do on that connection): the set of connections still awaited must be complete before the first call
+    chk.rule('C20.awaited', 'HostConnectionPool._set_keyspace_for_all_conns: the awaited set is built from the whole collection the loop iterates, before the loop; it only shrinks afterwards')
+    lk = pool.func('HostConnectionPool._set_keyspace_for_all_conns')
+    inner_l = nested_defs(lk).get('connection_finished_setting_keyspace')
+    if inner_l is None:
+        raise AnalysisError('HostConnectionPool._set_keyspace_for_all_conns: completion function not found')
+    rem = [c_ for c_ in body_walk(inner_l) if isinstance(c_, ast.Call) and isinstance(c_.func, ast.Attribute) and c_.func.attr in ('remove', 'discard') and isinstance(c_.func.value, ast.Name)]
+    loops_l = [n for n in lk.body if isinstance(n, ast.For) and any(isinstance(x, ast.Call) and isinstance(x.func, ast.Attribute) and x.func.attr == 'set_keyspace_async' for x in ast.walk(n))]
+    loops_l += [n for st_ in lk.body if isinstance(st_, ast.If) for n in st_.body + st_.orelse if isinstance(n, ast.For)
+                and any(isinstance(x, ast.Call) and isinstance(x.func, ast.Attribute) and x.func.attr == 'set_keyspace_async' for x in ast.walk(n))]
+    if len(rem) != 1 or len(loops_l) != 1:
+        raise AnalysisError('HostConnectionPool._set_keyspace_for_all_conns: awaited set / issuing loop not recognised')
+    S = rem[0].func.value.id
+    defs_s = [st_ for st_ in body_walk(lk) if isinstance(st_, ast.Assign) and len(st_.targets) == 1 and src(st_.targets[0]) == S]
+    grows = [c_ for c_ in ast.walk(lk) if isinstance(c_, ast.Call) and isinstance(c_.func, ast.Attribute) and src(c_.func.value) == S and c_.func.attr in ('add', 'update')]
+    oka = len(defs_s) == 1 and isinstance(defs_s[0].value, ast.Call) and src(defs_s[0].value.func) in ('set', 'list') and len(defs_s[0].value.args) == 1 \
+        and src(defs_s[0].value.args[0]) == src(loops_l[0].iter) and defs_s[0].lineno < loops_l[0].lineno and not grows
+    chk.judge(oka, 'C20.awaited', lk, 'the awaited set %s = set(%s) is complete before the loop over %s starts issuing USE' % (S, src(loops_l[0].iter), src(loops_l[0].iter)),
+              'the set of connections still awaited is filled while the requests are issued (%s): a connection that is already on the keyspace calls back inline, finds the set empty and reports '
+              'the switch complete - without errors - while the USE of the remaining connections has not even been sent; a later failure is lost (and its callback finds its connection missing)'
+              % ([src(c_)[:40] for c_ in grows] or [src(d_)[:60] for d_ in defs_s]))
+
     # ---- a USE that arrives while a replacement / additional connection is being prepared: the writer of the pool's keyspace and the publication
     # of the new connection have to exclude each other, and the publisher has to look at the keyspace again before it publishes
     chk.rule('C20.install', 'the keyspace selected on a new connection is compared with self._keyspace again inside the critical section that publishes the connection, '
